@@ -154,7 +154,8 @@ class Parser:
                 self.expect(')'); return self.p_un()
             e = self.expr(); self.expect(')'); return e
         if p == '$':
-            n = self.next(); self.expect('('); args = []
+            n = '' if self.peek() == '(' else self.next()
+            self.expect('('); args = []
             while self.peek() != ')':
                 args.append(self.expr())
                 if self.peek() == ',': self.next()
